@@ -28,7 +28,7 @@ func init() {
 		Name:  "NS-SORT",
 		IR:    "cfg",
 		Props: []string{"C31", "C08"}, // C08 names the order-preserving namespace encoding as one of its mechanisms
-		Floor: 1, // ingest/compact.(*NamespaceTable).FillFromNamespaces
+		Floor: 1,                      // ingest/compact.(*NamespaceTable).FillFromNamespaces
 		Doc: "where ingest/compact assigns namespace codes from a caller-supplied []b6.Namespace (M[ns] = Namespace(i) in a range over X), " +
 			"every path from function entry and from every write to X reaches the assignment only through an ascending sort of X",
 		Run: runNSSort,
